@@ -9,7 +9,7 @@ hooks = subprocess.run(["git", "-C", "/repo", "log", "--format=%H %s"], capture_
 hook_commits = [l.split()[0] for l in hooks if " verif:" in " " + l.split(" ", 1)[1] or l.split(" ", 1)[1].startswith("verif:")]
 checks = []
 for pid in allp:
-    if pid not in props:
+    if pid not in props or pid not in meta["checks"]:
         continue
     m = meta["checks"][pid]
     checks.append(dict(property_id=pid, quick_cmd="./check %s --tier quick" % pid,
@@ -19,7 +19,7 @@ for pid in allp:
                        engine=" + ".join(props[pid]["engines"]),
                        level_claimed=dict(category=props[pid].get("level", "model_checking"), text=m["text"], design_ref=m.get("design_ref", "DESIGN.md section 5")),
                        level_note=m["note"], technique=m["technique"]))
-na = [dict(property_id=p, reason=meta["not_applicable"].get(p, "check under construction in this round; see DESIGN.md section 5")) for p in allp if p not in props]
+na = [dict(property_id=p, reason=meta["not_applicable"].get(p, "check under construction in this round; see DESIGN.md section 5")) for p in allp if p not in props or p not in meta["checks"]]
 man = dict(version=1, setup_cmd="python3 tools/setup.py",
            hooks=dict(guard="UNIFEX_VERIF", enable="harness sources and the library .cpp files are compiled from /repo's working tree with -DUNIFEX_VERIF=1 (tools/vlib.py build())",
                       baseline_off_cmd="cmake --build /repo/_build && ctest --test-dir /repo/_build -j8 --timeout 900",
